@@ -631,11 +631,15 @@ impl Worksheet {
             return Err(format!("Column number '{column}' is not valid."));
         }
 
-        for row in self.sheet_data.keys() {
-            if self.cell(*row, column).is_some() {
+        // in row order: callers re-enter the cells one by one, and the order must not depend on
+        // the iteration order of the map
+        let mut rows: Vec<i32> = self.sheet_data.keys().copied().collect();
+        rows.sort_unstable();
+        for row in rows {
+            if self.cell(row, column).is_some() {
                 column_cell_references.push(CellReferenceIndex {
                     sheet: self.sheet_id,
-                    row: *row,
+                    row,
                     column,
                 });
             }
